@@ -87,6 +87,10 @@ pub struct Case {
     /// 0 = whole battery; k > 0 = only getter number k is judged (replay files of known findings)
     #[serde(default)]
     pub focus: u8,
+    /// freezer data files of this many bytes (hook of ckb-freezer; 0 = the 2 GiB default): a
+    /// roll-over every few blocks
+    #[serde(default)]
+    pub file_size: u32,
 }
 
 #[derive(Clone, Debug, Serialize, Deserialize)]
@@ -102,6 +106,8 @@ pub struct CrashCase {
     /// empty = every enumerated point; otherwise only this one (replay of a shrunk failure)
     #[serde(default)]
     pub only_point: String,
+    #[serde(default)]
+    pub file_size: u32,
 }
 
 fn spec_cfg(l: u8, window: u8) -> SpecCfg {
@@ -177,8 +183,9 @@ pub fn case_strategy(max_epochs: usize) -> impl Strategy<Value = Case> {
             ),
             any::<bool>(),
             prop_oneof![2 => Just(false), 1 => Just(true)],
+            prop_oneof![2 => Just(0u32), 1 => Just(900u32), 1 => Just(2_000u32), 1 => Just(5_000u32)],
         )
-            .prop_map(move |(plan, events, small_cache, freeze_after_reorg)| Case {
+            .prop_map(move |(plan, events, small_cache, freeze_after_reorg, file_size)| Case {
                 l,
                 window,
                 plan,
@@ -186,14 +193,21 @@ pub fn case_strategy(max_epochs: usize) -> impl Strategy<Value = Case> {
                 small_cache,
                 freeze_after_reorg,
                 focus: 0,
+                file_size,
             })
     })
 }
 
 pub fn crash_case_strategy() -> impl Strategy<Value = CrashCase> {
     (4u8..=6, 0u8..2).prop_flat_map(move |(l, window)| {
-        (plan_strategy(l, 5, 6), any::<bool>(), any::<bool>(), 0u8..=10).prop_map(
-            move |(plan, small_cache, prior_pass, tail)| CrashCase {
+        (
+            plan_strategy(l, 5, 6),
+            any::<bool>(),
+            any::<bool>(),
+            0u8..=10,
+            prop_oneof![1 => Just(0u32), 1 => Just(900u32), 1 => Just(2_000u32), 1 => Just(5_000u32)],
+        )
+            .prop_map(move |(plan, small_cache, prior_pass, tail, file_size)| CrashCase {
                 l,
                 window,
                 plan,
@@ -201,8 +215,8 @@ pub fn crash_case_strategy() -> impl Strategy<Value = CrashCase> {
                 prior_pass,
                 tail: l + 1 + tail % (l + 2),
                 only_point: String::new(),
-            },
-        )
+                file_size,
+            })
     })
 }
 
@@ -1044,7 +1058,22 @@ fn freeze_pass(node: &Node, w: &mut World, judge: &Judge, st: &mut Stats, seen: 
     Ok((f0, f1))
 }
 
+/// freezer data-file size for this case (read by the ckb-freezer hook in this process and in the
+/// crash / recovery children, which inherit the environment)
+fn set_file_size(size: u32, st: &mut Stats) {
+    // SAFETY: called between cases, when no node of this process is running
+    unsafe {
+        if size == 0 {
+            std::env::remove_var("VERIF_FREEZER_MAX_FILE_SIZE");
+        } else {
+            std::env::set_var("VERIF_FREEZER_MAX_FILE_SIZE", size.to_string());
+        }
+    }
+    st.label(if size == 0 { "cfg:freezer-default-file-size" } else { "cfg:freezer-small-data-files" });
+}
+
 fn prop(case: &Case, st: &mut Stats, judge: &Judge) -> Verdict {
+    set_file_size(case.file_size, st);
     let cfg = spec_cfg(case.l, case.window);
     let env = build_env(&cfg);
     let built = Interp::new(&env).run(&case.plan);
@@ -1422,6 +1451,7 @@ fn recover_and_continue(
 }
 
 fn crash_prop(case: &CrashCase, st: &mut Stats, judge: &Judge) -> Verdict {
+    set_file_size(case.file_size, st);
     let cfg = spec_cfg(case.l, case.window);
     let env = build_env(&cfg);
     let built = Interp::new(&env).run(&case.plan);
